@@ -161,6 +161,31 @@ def corpus():
     n_ = _mini([("f", "Int", [("x", "I", None)])], d2([("a", "Int"), ("b", "String"), ("c", "Int")]), via="code")
     out.append(dict(_pair(o_, n_, [{"edit": "retype_input_field", "path": ["I", "b"], "old": _t("Int"), "new": _t("String")},
                                    {"edit": "add_input_field", "path": ["I", "c"]}]), derive="clone_setter"))
+    # seeded C20-g: types built from the same SDL definition nodes are not skipped -- clone(), transforms and
+    # public setters rewrite a type and keep its `nodes`
+    w_old = {"types": [
+        {"kind": "object", "name": "Query", "interfaces": [], "default_resolver": None, "fields": [
+            {"name": "items", "type": _t("[Item]"), "depr": None, "resolver": None,
+             "args": [{"name": "limit", "type": _t("Int"), "default": {"py": 3, "gql": "3"}},
+                      {"name": "filter", "type": _t("Filter"), "default": None}]},
+            {"name": "internal_count", "type": _t("Int"), "args": [], "depr": None, "resolver": None}]},
+        {"kind": "object", "name": "Item", "interfaces": [], "default_resolver": None, "fields": [
+            {"name": "name", "type": _t("String"), "args": [], "depr": None, "resolver": None}]},
+        {"kind": "input", "name": "Filter", "fields": [{"name": "q", "type": _t("String"), "default": None},
+                                                        {"name": "internal_flag", "type": _t("Boolean"), "default": None}]}],
+        "directives": [], "query": "Query", "mutation": None, "subscription": None, "default_resolver": None, "via": "sdl"}
+    import copy as _copy
+    w_hide = _copy.deepcopy(w_old)      # transform_schema(old, HideInternals()): FieldRemoved + InputFieldRemoved
+    w_hide["types"][0]["fields"].pop()
+    w_hide["types"][2]["fields"].pop()
+    out.append(dict(_pair(w_old, w_hide, [{"edit": "remove_field", "path": ["Query", "internal_count"]},
+                                          {"edit": "remove_input_field", "path": ["Filter", "internal_flag"]}]),
+                    derive="transform"))
+    w_def = _copy.deepcopy(w_old)       # clone + `del limit.default_value`: the default change
+    w_def["types"][0]["fields"][0]["args"][0]["default"] = None
+    for mode in ("clone_setter", "in_place"):
+        out.append(dict(_pair(w_old, w_def, [{"edit": "default_arg", "path": ["Query", "items", "limit"]}]), derive=mode))
+    out.append(dict(_pair(w_old, w_old, [{"edit": "camel_case", "path": []}]), derive="camel_case"))
     # open finding: safe retype not reported at all
     old, new = _mini([("f", "Int", [("x", "Int!", None)])]), _mini([("f", "Int!", [("x", "Int", None)])])
     out.append(_pair(old, new, [{"edit": "retype_field", "path": ["Query", "f"], "old": _t("Int"), "new": _t("Int!")}]))
@@ -290,24 +315,52 @@ def generate(rng, tier):
                 cases.append(_pair(_mini([("f", G.tstr(o), [])]), _mini([("f", G.tstr(n), [])]),
                                    [{"edit": "retype_field", "path": ["Query", "f"], "old": o, "new": n}]))
     # histories: the edited schema is DERIVED from a schema object that has already been diffed
-    # (in place through the `fields` setter, clone() + setter, transform_schema hiding an input field)
-    for mode in ("in_place", "clone_setter", "transform"):
-        kinds = ["remove_input_field"] if mode == "transform" else [
-            "add_input_field", "remove_input_field", "retype_input_field", "default_input_field"]
+    # (in place through public setters, clone() + setters, transform_schema with a visibility /
+    # camel-case transform, extend_schema); sources are SDL-built (types carry their definition
+    # `nodes`) and code-built alternately; every member-level edit kind
+    member_kinds = ["add_field", "remove_field", "retype_field", "deprecate_field",
+                    "add_arg", "remove_arg", "retype_arg", "default_arg",
+                    "add_input_field", "remove_input_field", "retype_input_field", "default_input_field",
+                    "deprecate_enum_value", "add_union_member", "remove_union_member",
+                    "add_interface", "remove_interface"]
+    mode_kinds = {"in_place": member_kinds, "clone_setter": member_kinds,
+                  "transform": ["remove_field", "remove_input_field"],
+                  "extend": ["add_field", "add_input_field", "add_enum_value"],
+                  "camel_case": [None]}
+    for mode in G.DERIVE_MODES:
+        kinds = mode_kinds[mode]
+        want = {"in_place": 14, "clone_setter": 14, "transform": 8, "extend": 6, "camel_case": 3}[mode]
+        if tier != "quick":
+            want *= 5
         got = 0
-        for _ in range(300):
-            if got >= (8 if tier == "quick" else 40):
+        for attempt in range(want * 30):
+            if got >= want:
                 break
-            base = dict(G.gen_valid_spec(rng, "code"), via="code")
-            r = G.apply_edit(rng, base, rng.choice(kinds))
-            if r is None or not _buildable(base) or not _buildable(r[0]):
+            via = "sdl" if attempt % 3 else "code"
+            base = G.gen_valid_spec(rng, via)
+            kind = kinds[got % len(kinds)]
+            if kind is None:
+                new, descs = base, [{"edit": "camel_case", "path": []}]
+            else:
+                r = G.apply_edit(rng, base, kind)
+                if r is None:
+                    continue
+                new, descs = r[0], [r[1]]
+                if mode == "extend":    # an extension appends: move the added member to the end
+                    for td in new["types"]:
+                        if td["name"] == r[1]["path"][0]:
+                            lst = td.get("values") if td["kind"] == "enum" else td.get("fields")
+                            x = next(m for m in lst if m["name"] == r[1]["path"][-1])
+                            lst.remove(x)
+                            lst.append(x)
+            if not _buildable(base) or not _buildable(new):
                 continue
             try:
-                _build(r[0]).validate()
-                G.derive_schema(base, r[0], mode)
-            except Exception:  # the edited schema must be valid and derivable
+                _build(new).validate()
+                G.derive_schema(base, new, mode)
+            except Exception:  # the edited schema must be valid and derivable that way
                 continue
-            cases.append(dict(_pair(base, r[0], [r[1]]), derive=mode))
+            cases.append(dict(_pair(base, new, descs), derive=mode))
             got += 1
     # safe retypes of input positions (same name, non-null dropped): nothing BREAKING is reported, so the
     # variable-through-old-type operations are re-validated on them
@@ -499,7 +552,7 @@ def direct_checks(case, obs):
         return out
     changes = obs["changes"]
     # every elementary edit is reported with a change naming the edited element
-    if len(case["edits"]) == 1:
+    if len(case["edits"]) == 1 and case["edits"][0]["edit"] != "camel_case":
         d = case["edits"][0]
         if not any(c[2] == d["path"] for c in changes):
             if d["edit"].startswith("retype_") and G.tbase(d["old"]) == G.tbase(d["new"]) and _retype_is_safe(d):
